@@ -320,7 +320,83 @@ def generate_parallel(ctx):
             ctx.explore("interface.run_bldfm_parallel[%s|%s]" % (strategy, workers_given), thunk, PROPS)
 
 
+def generate_cli(ctx):
+    """bldfm.cli:cmd_run (anchor of C16: 'drivers iterate range(n_timesteps)', cli.py): without --dry-run the command
+    performs exactly one single run per (tower, step) with step < n_timesteps, towers in configuration order and steps in
+    time order, on the configuration load_config returned for the given path, after copying the parallel settings into the
+    runtime configuration module; with --dry-run it performs none."""
+    P = {"C16", "C14"}
+    if not ctx.wants(P):
+        return
+    CLI = "bldfm.cli"
+    st = {}
+
+    def row(tt, ii):
+        return Op("interface.run_bldfm_single", {"config": st["config"], "tower": st["tower"](tt), "met_index": num(ii),
+                                                 "surface_flux": None, "cache": None})
+
+    class CliOuter(loops.Constructive):
+        props = P
+
+        def state_at(self, ctl, t):
+            st["cli_t"] = t
+            return {"results": values.BList(t, st["n_time"], 0, row, name="results")}
+
+        def iter_state(self, ctl, t):
+            s_ = self.state_at(ctl, t)
+            st["cli_t"] = t
+            return s_
+
+    class CliInner(loops.Constructive):
+        props = P
+
+        def state_at(self, ctl, i):
+            return {"results": values.BList(st["cli_t"], st["n_time"], i, row, name="results")}
+    ns = harness.namespace(CLI)
+    f = harness.define(ctx, ns, CLI, "cmd_run", loop_specs={"outer:results": CliOuter(), "inner:results": CliInner()})
+    for dry in (True, False):
+        for plot in (True, False):
+            def thunk(run, dry=dry, plot=plot):
+                config, n_time, n_tow, tower = make_world(run)
+                config.parallel.num_threads = sym.fresh_int("cfg_num_threads")
+                log, plots, inits = [], [], []
+                path = Op("input.config_path", {})
+                cfgmod = values.Rec("bldfm.config", NUM_THREADS=sym.fresh_int("threads0"), MAX_WORKERS=sym.fresh_int("workers0"),
+                                    USE_CACHE=sym.fresh_bool("cache0"))
+
+                def load_config(p):
+                    run.oblige("cli.loads-the-given-file", veq(p, path), kind="post", props=P)
+                    return config
+                ns.update({"initialize": lambda *a, **k: inits.append(1), "get_logger": lambda *a, **k: None,
+                           "load_config": load_config, "run_bldfm_single": single_stub(run, config, log),
+                           "_save_plots": lambda results, logger: plots.append(results)})
+                ns["__pyvc_imports__"]["config"] = cfgmod
+                st.update({"config": config, "tower": tower, "n_time": n_time})
+                run.scope = "cli.cmd_run[dry_run=%s|plot=%s]" % (dry, plot)
+                run.props = set(P)
+                args = values.Rec("args", config=path, dry_run=dry, plot=plot)
+                harness.call(run, f, args)
+                if dry:
+                    run.oblige("cli.dry-run-solves-nothing", SBool(len(log) == 0), kind="post")
+                    run.cover("path")
+                    return
+                want = values.BList(n_tow, n_time, 0, row, name="spec")
+                got = plots[0] if plots else None
+                if plot:
+                    run.oblige("cli.plots-every-result-once", SBool(len(plots) == 1), kind="post", meta={"structural": True})
+                    if plots:
+                        run.oblige("cli.one-single-run-per-tower-and-step-in-order", veq(got, want), kind="post")
+                else:
+                    run.oblige("cli.no-plots-unless-requested", SBool(len(plots) == 0), kind="post")
+                run.oblige("cli.runtime-threads-from-config", veq(cfgmod.NUM_THREADS, config.parallel.num_threads), kind="post")
+                run.oblige("cli.runtime-workers-from-config", veq(cfgmod.MAX_WORKERS, config.parallel.max_workers), kind="post")
+                run.oblige("cli.runtime-cache-flag-from-config", veq(cfgmod.USE_CACHE, config.parallel.use_cache), kind="post")
+                run.cover("path")
+            ctx.explore("cli.cmd_run[dry_run=%s|plot=%s]" % (dry, plot), thunk, P)
+
+
 def generate(ctx):
     generate_timeseries(ctx)
     generate_multitower(ctx)
     generate_parallel(ctx)
+    generate_cli(ctx)
